@@ -492,7 +492,46 @@ def _where(e):
     return tb[-1].name if tb else '?'
 
 
-RUNNERS = {'base': run_base, 'ctor': run_ctor, 'tree': run_tree}
+def run_integrate(ctx, p):
+    """an attitude integration: thousands of small rotations exp(w_k), each constructed by the library, composed one after the
+    other (R = R * Exp(w dt), the inner loop of every strap-down integrator) or by prod(): the result is still a member.  Each single
+    factor may be off by 1e-12 without any per-value monitor noticing; 20 000 of them with a defect of one sign are not"""
+    import spatialmath as sm
+    c, n, how = p['cls'], int(p['n']), p['how']
+    w0 = np.asarray(p['w'], dtype=np.float64)
+    C = getattr(sm, c)
+    d3 = c in ('SO3', 'SE3')
+    sig = dict(api='%s.%s' % (c, how), opts='integrate')
+
+    def step(k):
+        f_ = 1 + 0.1 * math.sin(0.37 * k)
+        if c == 'SO3':
+            return w0 * f_
+        if c == 'SE3':
+            return np.r_[np.asarray(p['v'], dtype=np.float64) * f_, w0 * f_]
+        return float(w0[0]) * f_
+    try:
+        if how == 'prod':
+            if c == 'SO3':
+                X = C.Exp(np.array([step(k) for k in range(n)]), so3=False).prod()
+            else:
+                X = C.Exp([step(k) for k in range(n)]).prod()
+        else:
+            X = C()
+            for k in range(n):
+                E = C.Exp(step(k)) if c != 'SO2' else C(step(k))
+                if how == 'imul':
+                    X *= E
+                else:
+                    X = X * E
+    except Exception as e:
+        ctx.bad('class.op', dict(sig, kind='raised', exc=type(e).__name__), '%s integration of %d steps raised %r' % (c, n, e))
+        return
+    check_object(ctx, 'class.op', X, c, sig, lambda: '%s: %d rotations of %.3g rad composed by %s' % (c, n, float(np.linalg.norm(w0)), how))
+    ctx.cell('integrate', c, how)
+
+
+RUNNERS = {'base': run_base, 'ctor': run_ctor, 'tree': run_tree, 'integrate': run_integrate}
 
 
 # ----------------------------------------------------------------------------- workload
@@ -637,6 +676,16 @@ def run(ctx):
         if '_layout' not in kw and nm not in ('OA', 'Vec3') and rng.random() < 0.12:      # (OA: rounding can make the pair parallel; Vec3: |v| <= 1)
             kw = dict(kw, _layout=['float32', 'float16', 'int'][rng.integers(3)])     # vectors (axes, angle triples) of a narrow element type
         drive(mod, ctx, 'ctor', dict(cls=c, name=nm, args=args, kwargs=kw))
+    k_ = 0
+    for c in ('SO3', 'SE3', 'SO2'):
+        for how in ('mul', 'imul', 'prod'):
+            for _ in range(ctx.scale(1, 4)):
+                k_ += 1
+                if not ctx.mine(k_):
+                    continue
+                mag_ = float(rng.uniform(5e-7, 1e-6)) if rng.random() < 0.7 else float(gen.logu(rng, 1e-9, 1e-4))
+                w_ = gen.unit_axis(rng) * mag_ if c != 'SO2' else np.array([mag_])
+                drive(mod, ctx, 'integrate', dict(cls=c, how=how, n=20000 if ctx.tier == 'quick' else 30000, w=w_, v=gen.unit_axis(rng) * float(gen.logu(rng, 1e-6, 1e-3))))
     depth = 4 if ctx.tier == 'quick' else 5
     for _ in range(ctx.scale(2400, 60000)):
         c = CLASSES[rng.integers(5)]
